@@ -7,6 +7,17 @@ from ..absint import wrappers
 
 
 def run(prog: Program, rep: Report, tier: str) -> None:
+    from ..absint import domain as _dom
+    if tier == 'thorough':
+        _dom.refine([-2.0, -0.5, 0.5, 2.0])
+        rep.notes.append('thorough tier: abstract partition refined with cut points -2, -0.5, 0.5, 2 (16 numeric classes)')
+    try:
+        _run(prog, rep, tier)
+    finally:
+        _dom.refine([])
+
+
+def _run(prog: Program, rep: Report, tier: str) -> None:
     rep.rule('C08-L1..L8', 'semiring laws evaluated by abstract interpretation of the ASTs of from_int/add/mul/sub/star/add_ over a finite partition of the extended reals {-inf,(<-1),-1,(-1,0),0,(0,1),1,(>1),+inf} (booleans for BoolSemiring): identities, annihilation by zero incl. the infinite element, commutativity on all pairs, associativity and distributivity on all triples (exact where both sides are single points, otherwise the two sides must overlap), star(zero)=one, star(top)=top, star(one)=one iff add is idempotent else top, star>=one, (x-y)+y=x at the special pairs, add_ == add, sum in the family of add')
     rep.rule('C08-L9', 'representation agreement: every TensorLike method the semiring bodies call is a homomorphism on PatternedTensor (the function applied to `physical`, the function applied to `default`, and the torch op of that name agree on every class; the default path never raises where torch returns a value)')
     rep.not_decided += ['rounding-level laws on finite floats (associativity up to rounding)', 'behaviour inside a class (subnormals, values near overflow) beyond the extreme representatives']
